@@ -630,7 +630,7 @@ def r1_11(ctx: Ctx) -> RuleResult:
 def r1_12(ctx: Ctx) -> RuleResult:
     """The descendant shorthand `..name` spells every name whose first character RFC 9535 allows (ALPHA, `_`,
     non-ASCII); the documented departure is reserved *words* only."""
-    rr = RuleResult("R1.12", "the descendant shorthand admits every RFC first character", floor=20)
+    rr = RuleResult("R1.12", "the descendant shorthand admits every RFC first character", floor=40)
     lex = ctx.lexer
     where = lex.compile_fn.loc()
     for c, label in (("a", "ALPHA"), ("Z", "ALPHA"), ("_", "`_`"), ("\u00e9", "%x80-D7FF"), ("\U0001f600", "%x10000-10FFFF")):
@@ -646,20 +646,22 @@ def r1_12(ctx: Ctx) -> RuleResult:
     # (the word-boundary of the keyword rules must see non-ASCII letters as letters)
     bad_words = []
     for word in ("in", "or", "and", "not", "true", "false", "null", "nil", "none", "contains", "undefined", "missing"):
-        for tail in ("x", "\u00e9", "\u00f0"):
+        for tail in ("x", "\u00e9", "\u00f0", "\u2603", "\u20ac1"):  # a letter, non-ASCII letters, non-ASCII characters that are not letters
             name = word + tail
             got = _name_tokens(lex.classify("$.." + name))
             if [k for k, _ in got] == ["ROOT", "DDOT", "NAME"] and got[-1][1] == name:
                 rr.ok(where, f"`$..{name}` is the name {name!r}")
             else:
-                bad_words.append((name, [k for k, _ in got]))
+                bad_words.append((name, [k for k, _ in got], tail))
     if bad_words:
-        name, kinds = bad_words[0]
-        ascii_only = all(not n[-1].isascii() for n, _ in bad_words)
+        name, kinds, _t = bad_words[0]
+        ascii_only = all(not t_[0].isascii() for _n, _k, t_ in bad_words)
+        symbols_only = all(not t_[0].isascii() and not t_[0].isalpha() for _n, _k, t_ in bad_words)
         rr.bad(lex.compile_fn, lex.compile_fn.node,
                f"`$..{name}` is lexed as {kinds} ({len(bad_words)} such names): a name that starts with a reserved word is cut after "
                f"the word{' when a non-ASCII letter follows (the keyword boundary is ASCII-only)' if ascii_only else ''}; it is not a reserved word",
-               construct="descendant shorthand: reserved word followed by " + ("a non-ASCII letter" if ascii_only else "a letter"))
+               construct="descendant shorthand: reserved word followed by " + (
+                   "a non-ASCII name character that is not a letter" if symbols_only else ("a non-ASCII letter" if ascii_only else "a letter")))
     return rr
 
 
